@@ -10,9 +10,9 @@ git apply $OUT/patch.diff || { echo "APPLY-FAILED"; exit 2; }
 LIB=$(timeout 900 cargo test --offline --lib 2>&1 | grep -E "^test result" | head -1)
 ITS=$(timeout 900 cargo test --offline --test test_proxy --test test_redirection --test test_timeout 2>&1 | grep -E "^test result" | tr '\n' ' ')
 FEAT=$(timeout 900 cargo test --offline --lib --features charsets,json,form,multipart-form 2>&1 | grep -E "^test result" | head -1)
-WITH=$(timeout 900 cargo test --offline --features charsets,json,form,multipart-form,verif-hooks --test seed_demo_$K 2>&1 | grep -E "^test result" | head -1)
+WITH=$(timeout 900 cargo test --offline ${DEMO_FEATURES:---features charsets,json,form,multipart-form,verif-hooks} --test seed_demo_$K 2>&1 | grep -E "^test result" | head -1)
 git checkout -q -- src Cargo.toml
-WITHOUT=$(timeout 900 cargo test --offline --features charsets,json,form,multipart-form,verif-hooks --test seed_demo_$K 2>&1 | grep -E "^test result" | head -1)
+WITHOUT=$(timeout 900 cargo test --offline ${DEMO_FEATURES:---features charsets,json,form,multipart-form,verif-hooks} --test seed_demo_$K 2>&1 | grep -E "^test result" | head -1)
 echo "suite(lib) with patch : $LIB"
 echo "suite(integration)    : $ITS"
 echo "suite(lib, features)  : $FEAT"
